@@ -66,12 +66,12 @@ Definition rnd_wf (r : rnd) : Prop :=
   | RSample vals counts _ =>
       let c := counts_of vals counts in
       length c = length vals /\ Forall (fun x => 0 <= x) c /\ 0 < total c
-  | RText _ => True
+  | RText _ _ => True
   end.
 
 Definition prob_of (r : rnd) : Q :=
   match r with
-  | RRangeI _ _ p _ | RRangeF _ _ p _ | RDate _ _ _ p | RValue _ p | RSample _ _ p | RText p => p
+  | RRangeI _ _ p _ | RRangeF _ _ p _ | RDate _ _ _ p | RValue _ p | RSample _ _ p | RText _ p => p
   end.
 (* what generate() answers when the value is skipped *)
 Definition none_of (r : rnd) : value :=
@@ -87,7 +87,7 @@ Definition in_range (r : rnd) (raw : value) : Prop :=
   | RValue v _ => raw = v
   | RSample vals counts _ =>
       exists c, In (raw, c) (combine vals (counts_of vals counts)) /\ 0 < c
-  | RText _ => exists t, raw = VStr t
+  | RText arg _ => exists t, raw = VStr (arg ++ t)   (* fabulist called with the declared arguments *)
   end.
 
 (* the values randomizer r may answer: inside the declared range – unless its
@@ -116,7 +116,7 @@ Qed.
 Lemma gen_may r s : rnd_wf r -> rnd_may r (fst (gen r s)).
 Proof.
   intros Hwf. unfold rnd_may.
-  destruct r as [lo hi p none | lo hi p none | mn days stamp p | v p | vals counts p | p];
+  destruct r as [lo hi p none | lo hi p none | mn days stamp p | v p | vals counts p | arg p];
     cbn [rnd_wf prob_of none_of in_range gen] in *;
     pose proof (skip_true p s) as Hsk; pose proof (skip_false p s) as Hns;
     destruct (skip_value p s) as [sk s1]; cbn [fst] in Hsk, Hns;
@@ -479,6 +479,25 @@ Section Spec.
 
   Hypothesis Hwf : def_wf Df.
 
+  (* :count resolves to something range() accepts (otherwise the code raises TypeError) *)
+  Definition count_wf (c : option sval) : Prop :=
+    match c with
+    | None => True
+    | Some (SV v) => countable v = true
+    | Some (SR r) => forall raw, rnd_may r raw -> countable raw = true
+    end.
+  Definition counts_wf : Prop :=
+    forall p cs e, lookup p rels = Some cs -> In e cs -> count_wf (lookup K_count (mspec e)).
+  Hypothesis Hcw : counts_wf.
+
+  Lemma count_err_false c s : (forall sv, c = Some sv -> sval_wf sv) -> count_wf c -> count_err c s = false.
+  Proof.
+    intros Hs Hc. destruct c as [[v|r]|]; cbn [count_err count_wf] in *.
+    - rewrite Hc. reflexivity.
+    - rewrite (Hc _ (gen_may r s (Hs _ eq_refl))). reflexivity.
+    - reflexivity.
+  Qed.
+
   Lemma mspec_wf p cs e : lookup p rels = Some cs -> In e cs -> spec_wf (mspec e).
   Proof.
     intros Hl Hin. destruct Hwf as [Ht Hr]. apply merge_wf; [exact Ht|].
@@ -532,6 +551,7 @@ Section Spec.
     intros e g [Hin [s1 ->]].
     unfold make_group. fold types. fold (mspec e).
     pose proof (mspec_wf _ _ _ Hl Hin) as Hmw.
+    rewrite (count_err_false _ s1 (fun sv E => lookup_wf _ _ _ Hmw E) (Hcw _ _ _ Hl Hin)).
     pose proof (resolve_count_ok (lookup K_count (mspec e)) s1 (fun sv E => lookup_wf _ _ _ Hmw E)) as Hc.
     pose proof (resolve_count_pos (lookup K_count (mspec e)) s1) as Hpos.
     destruct (resolve_count (lookup K_count (mspec e)) s1) as [cnt s2]. cbn [fst] in *.
@@ -568,6 +588,7 @@ Section Spec.
     destruct (lookup ptype rels) as [cs|] eqn:Hl; [|reflexivity].
     rewrite (smap_ext (make_group Df (make_tree Df f1) prefix) (make_group Df (make_tree Df f2) prefix)); [reflexivity|].
     intros e s1 Hin. unfold make_group. fold types. fold (mspec e).
+    destruct (count_err (lookup K_count (mspec e)) s1); [reflexivity|].
     pose proof (resolve_count_pos (lookup K_count (mspec e)) s1) as Hpos.
     destruct (resolve_count (lookup K_count (mspec e)) s1) as [cnt s2]. cbn [fst] in Hpos.
     apply smap_ext. intros i s3 Hi. apply in_seq in Hi.
@@ -940,7 +961,7 @@ Definition rnd_wfb (r : rnd) : bool :=
   | RSample vals counts _ =>
       let c := counts_of vals counts in
       Nat.eqb (length c) (length vals) && forallb (fun x => 0 <=? x) c && (0 <? total c)
-  | RText _ => true
+  | RText _ _ => true
   end.
 Definition sval_wfb (sv : sval) : bool := match sv with SV _ => true | SR r => rnd_wfb r end.
 Definition spec_wfb (sp : spec) : bool := forallb (fun kv => sval_wfb (snd kv)) sp.
@@ -955,7 +976,7 @@ Lemma ctor_ok_wf r : ctor_ok r = true ->
 Proof.
   assert (P : forall p, Qle_bool 0 p && Qle_bool p 1 = true -> (0 <= p)%Q /\ (p <= 1)%Q).
   { intros p H. apply andb_true_iff in H. destruct H as [H1 H2]. split; apply Qle_bool_iff; assumption. }
-  destruct r as [lo hi p none | lo hi p none | mn days stamp p | v p | vals counts p | p];
+  destruct r as [lo hi p none | lo hi p none | mn days stamp p | v p | vals counts p | arg p];
     cbn [ctor_ok prob_of rnd_wf]; intros H.
   - apply andb_true_iff in H. destruct H as [H H']. destruct (P p H) as [P0 P1].
     refine (conj P0 (conj P1 _)). apply Z.ltb_lt. exact H'.
@@ -970,7 +991,7 @@ Qed.
 
 Lemma rnd_wfb_ok r : rnd_wfb r = true -> rnd_wf r.
 Proof.
-  destruct r as [lo hi p none | lo hi p none | mn days stamp p | v p | vals counts p | p];
+  destruct r as [lo hi p none | lo hi p none | mn days stamp p | v p | vals counts p | arg p];
     cbn [rnd_wfb rnd_wf]; intros H; try exact Logic.I.
   - apply Z.ltb_lt. exact H.
   - apply Qnot_le_lt. intros Hle. apply Qle_bool_iff in Hle. rewrite Hle in H. discriminate.
@@ -995,6 +1016,43 @@ Proof.
   - apply Forall_forall. intros e He. rewrite forallb_forall in H2. specialize (H2 e He).
     apply Forall_forall. intros c Hc. rewrite forallb_forall in H2. exact (spec_wfb_ok _ (H2 c Hc)).
 Qed.
+
+(* decidable (sufficient) form of counts_wf *)
+Definition count_wfb (c : option sval) : bool :=
+  match c with
+  | None => true
+  | Some (SV v) => countable v
+  | Some (SR (RRangeI _ _ _ none)) => countable none
+  | Some (SR (RValue v _)) => countable v
+  | Some (SR (RSample vals _ _)) => forallb countable vals
+  | Some (SR _) => false
+  end.
+Definition counts_wfb (Df : sdef) : bool :=
+  forallb (fun pc : text * list (text * spec) =>
+             forallb (fun e => count_wfb (lookup K_count (mspec Df e))) (snd pc)) (d_rels Df).
+
+Lemma count_wfb_ok c : count_wfb c = true -> count_wf c.
+Proof.
+  destruct c as [[v|r]|]; cbn [count_wfb count_wf]; intros H; try exact H; try exact Logic.I.
+  destruct r as [lo hi p none | lo hi p none | mn days stamp p | v p | vals counts p | arg p]; try discriminate;
+    intros raw [[_ Hin]|[_ ->]]; cbn [in_range none_of] in *; try reflexivity; try exact H.
+  - destruct Hin as [z [-> _]]. reflexivity.
+  - subst raw. exact H.
+  - destruct Hin as [c [Hin _]]. apply in_combine_l in Hin. rewrite forallb_forall in H. exact (H _ Hin).
+Qed.
+
+Lemma counts_wfb_ok Df : counts_wfb Df = true -> counts_wf Df.
+Proof.
+  unfold counts_wfb, counts_wf. intros H p cs e Hl Hin. apply lookup_In in Hl.
+  rewrite forallb_forall in H. specialize (H _ Hl). cbn [snd] in H.
+  rewrite forallb_forall in H. exact (count_wfb_ok _ (H _ Hin)).
+Qed.
+
+(* a :count that range() does not accept leaves the trace of the TypeError *)
+Lemma count_err_raises Df rec prefix e s :
+  count_err (lookup K_count (mspec Df e)) s = true ->
+  fst (make_group Df rec prefix e s) = [err_node (fst e)] /\ raised (err_node (fst e)) = true.
+Proof. intros H. unfold make_group. fold (mspec Df e). rewrite H. split; reflexivity. Qed.
 
 Definition rk_of (l : list (text * nat)) (t : text) : nat :=
   match lookup t l with Some n => n | None => O end.
@@ -1029,7 +1087,7 @@ Proof.
   assert (Hl : lookup pt (d_rels Dcyc) = Some [(TA, [])]) by (destruct H as [->| ->]; reflexivity).
   cbn [make_tree]. rewrite Hl. cbn [smap]. unfold make_group.
   change (merge_specs (fst (TA, [])) (snd (TA, [])) (d_types Dcyc)) with (@nil (text * sval)).
-  cbn [lookup resolve_count seq smap]. unfold make_node.
+  cbn [lookup count_err resolve_count seq smap]. unfold make_node.
   change (strip []) with (@nil (text * sval)). cbn [resolve_dict fst cb_of fac_of apply_cb].
   change (mem TA (d_rels Dcyc)) with true. cbv iota.
   rewrite (IH TA (hier prefix 1) s (or_intror eq_refl)). reflexivity.
